@@ -382,6 +382,12 @@ func (rl *respDeserializer) peekBulkLine(length int) (line respBulkString, valid
 		panic("already determined the next line")
 	}
 
+	if length < 0 || length > len(rl.content)-rl.pos-2 {
+		// negative, or more than the buffer holds (checked without overflowing)
+		valid = false
+		return
+	}
+
 	rl.nextPos = rl.pos + length + 2
 	if rl.nextPos > len(rl.content) {
 		valid = false
